@@ -1,6 +1,7 @@
 package main
 
 import (
+	"bytes"
 	"encoding/binary"
 	"encoding/json"
 	"fmt"
@@ -482,7 +483,8 @@ func c16History(rep *Report, m *model.Client, cfg engine.Config, ops []engine.Op
 		}
 		// a damaged slot that still validates must be byte-identical to a header that was really written
 		for s := 0; s < 2; s++ {
-			if dc.dam[s] && v[s] && kind != "tear" {
+			if dc.dam[s] && v[s] && kind != "tear" && !bytes.Equal(dimg[s*ps:s*ps+84], img[s*ps:s*ps+84]) {
+				// (random garbage may happen to write the bytes that are already there: then nothing is damaged)
 				rep.violate(Violation{Kind: "oracle", Sig: "damaged-header-validates/" + kind,
 					Detail: fmt.Sprintf("%s: the damaged slot %d still validates", dc.name, s),
 					Replay: c16Replay{Config: cfg, Ops: ops, HistSeed: hseed, Damage: dc.name, Expect: "invalid", Actual: "valid"}})
